@@ -1,6 +1,236 @@
-import DdsModel.Drv.Util
+import DdsModel.HeaderTables
+import DdsModel.Drv.C02
+namespace Dds.Drv.C09
+open Dds
+
+def fmtOptNat : Option Nat → String
+  | some x => toString x
+  | none => "-"
+
+def parseOptNat (s : String) : Option (Option Nat) :=
+  if s == "-" then some none else (nat? s).map some
+
+def fmtPf : Dx9PixelFormat → String
+  | .fourCC c => s!"F:{c}"
+  | .mask m => s!"M:{m.flags}:{m.rgbBitCount.toU32}:{m.rMask}:{m.gMask}:{m.bMask}:{m.aMask}"
+
+def fmtHeader : Header → String
+  | .dx9 x => s!"9:{x.width}:{x.height}:{fmtOptNat x.depth}:{x.mipmapCount}:{x.caps2}:{fmtPf x.pixelFormat}"
+  | .dx10 x =>
+    s!"10:{x.width}:{x.height}:{fmtOptNat x.depth}:{x.mipmapCount}:{x.dxgiFormat}:{x.resourceDimension.toU32}:{x.miscFlag}:{x.arraySize}:{x.alphaMode.toU32}"
+
+def u32? (s : String) : Option Nat := do
+  let n ← nat? s
+  if n < U32 then some n else none
+
+def parseHeaderTok (s : String) : Option Header :=
+  match splitColon s with
+  | ["9", w, h, d, m, c, "F", cc] => do
+    let mc ← u32? m
+    if mc = 0 then none
+    some (.dx9 { width := ← u32? w, height := ← u32? h, depth := ← parseOptNat d, mipmapCount := mc,
+                 caps2 := ← u32? c, pixelFormat := .fourCC (← u32? cc) })
+  | ["9", w, h, d, m, c, "M", fl, bc, r, g, b, a] => do
+    let mc ← u32? m
+    if mc = 0 then none
+    some (.dx9 { width := ← u32? w, height := ← u32? h, depth := ← parseOptNat d, mipmapCount := mc,
+                 caps2 := ← u32? c,
+                 pixelFormat := .mask { flags := ← u32? fl, rgbBitCount := ← RgbBitCount.ofU32 (← u32? bc),
+                                        rMask := ← u32? r, gMask := ← u32? g, bMask := ← u32? b,
+                                        aMask := ← u32? a } })
+  | ["10", w, h, d, m, f, dim, misc, arr, al] => do
+    let mc ← u32? m
+    if mc = 0 then none
+    let code ← u32? f
+    if !dxgiValid code then none
+    some (.dx10 { width := ← u32? w, height := ← u32? h, depth := ← parseOptNat d, mipmapCount := mc,
+                  dxgiFormat := code, resourceDimension := ← ResDim.ofU32 (← u32? dim),
+                  miscFlag := ← u32? misc, arraySize := ← u32? arr,
+                  alphaMode := ← AlphaMode.ofU32 (← u32? al) })
+  | _ => none
+
+def fmtErr : HeaderErr → String
+  | .invalidMagicBytes w => s!"err:InvalidMagicBytes:{w}"
+  | .invalidHeaderSize n => s!"err:InvalidHeaderSize:{n}"
+  | .invalidPixelFormatSize n => s!"err:InvalidPixelFormatSize:{n}"
+  | .invalidRgbBitCount n => s!"err:InvalidRgbBitCount:{n}"
+  | .invalidDxgiFormat n => s!"err:InvalidDxgiFormat:{n}"
+  | .invalidResourceDimension n => s!"err:InvalidResourceDimension:{n}"
+  | .invalidAlphaMode n => s!"err:InvalidAlphaMode:{n}"
+  | .invalidArraySizeForTexture3D n => s!"err:InvalidArraySizeForTexture3D:{n}"
+  | .io => "err:Io"
+
+def fmtPxOpt : Option PixelInfo → String
+  | some p => fmtPx p
+  | none => "-"
+
+/-- `DataLayout::from_header(h).data_len()`; `none` also for a panic -/
+def dataLenOf (h : Header) : Option Nat :=
+  match pixelInfoOf h with
+  | none => none
+  | some px => h.layoutLen px
+
+/-- does the model hit a panic branch of the layout code for this header? -/
+def layoutPanics (h : Header) : Bool :=
+  match pixelInfoOf h with
+  | none => false
+  | some px =>
+    match layoutOf h.toLayoutHeader px with
+    | none => true
+    | some (.ok L) => L.dataLenP.isNone
+    | some (.error _) => false
+
+def fmtLayout (h : Header) : String :=
+  match pixelInfoOf h with
+  | none => "nopx"
+  | some px =>
+    match layoutOf h.toLayoutHeader px with
+    | none => "panic"
+    | some (.error e) => s!"err:{errName e}"
+    | some (.ok L) =>
+      let len := match L.dataLenP with | some l => toString l | none => "panic"
+      match L with
+      | .texture t => s!"T:{t.w}x{t.h}:{t.mips}:{len}"
+      | .volume v => s!"V:{v.w}x{v.h}x{v.d}:{v.mips}:{len}"
+      | .textureArray a =>
+        let k := match a.kind with
+          | .textures => "T" | .cubeMaps => "C" | .partialCubeMap f => s!"P{f}"
+        s!"A{k}:{a.arrayLen}:{a.w}x{a.h}:{a.mips}:{len}"
+
+structure OptTok where
+  opts : ParseOptions
+
+def parseOpts (o fl : String) : Option ParseOptions := do
+  let (perm, skip) ← match o with
+    | "s" => some (false, false) | "p" => some (true, false)
+    | "S" => some (false, true) | "P" => some (true, true) | _ => none
+  let fileLen ← if fl == "-" then some none else
+    (do let n ← nat? fl; if n < U64 then some (some n) else none)
+  some { skipMagicBytes := skip, permissive := perm, fileLen }
+
+/-- `len=.. W=.. rr=...` of the harness -/
+def roundtripStr (h : Header) : String :=
+  let ws := h.write pixelInfoOf
+  let len := dataLenOf h
+  let same (o : ParseOptions) : String :=
+    match Header.read pixelInfoOf o ws with
+    | .ok (h2, rest) => if h2 = h ∧ rest = [] then "1" else "0"
+    | .error _ => "0"
+  let third := match len with
+    | some l => if l + 4 * ws.length < U64 then
+        same (ParseOptions.newPermissive (some (l + 4 * ws.length))) else "x"
+    | none => "x"
+  let rr := same ParseOptions.strict ++ same (ParseOptions.newPermissive none) ++ third
+  s!"len={fmtOptNat len} W={",".intercalate (ws.map toString)} rr={rr}"
+
+def runP (t : List String) : String :=
+  match t with
+  | o :: fl :: wsS =>
+    match parseOpts o fl, wsS.mapM u32? with
+    | some opts, some ws =>
+      let head :=
+        match Header.read pixelInfoOf opts ws with
+        | .ok (h, rest) =>
+          if layoutPanics h then "panic" else
+          s!"ok {fmtHeader h} rest={rest.length} {roundtripStr h}"
+        | .error e => fmtErr e
+      let body := if opts.skipMagicBytes then ws else ws.drop 1
+      let raw :=
+        match RawHeader.read body with
+        | none => " raw=eof"
+        | some (r, rest) =>
+          let used := body.length - rest.length
+          let same := r.write == body.take used
+          s!" raw={used}:{if same then 1 else 0}"
+      head ++ raw
+    | _, _ => "bad-case"
+  | _ => "bad-case"
+
+def Format.name (f : Format) : String :=
+  ((toString (repr f)).splitOn ".").getLastD ""
+
+def formatByName (s : String) : Option Format := Format.all.find? (fun f => Format.name f == s)
+
+def parseOp (s : String) : Option BuilderOp :=
+  match splitColon s with
+  | ["S", a, b] => do some (.withSize (← u32? a) (← u32? b))
+  | ["D", a, b, c] => do some (.withDimensions (← u32? a) (← u32? b) (← parseOptNat c))
+  | ["M", m] => do some (.withMipmapCount (← u32? m))
+  | ["X"] => some .withMipmaps
+  | _ => none
+
+def runK (t : List String) : String :=
+  match t with
+  | c :: f :: w :: h :: d :: opsS =>
+    let k? : Option CtorKind := match c with
+      | "I" => some .image | "V" => some .volume | "C" => some .cubeMap | _ => none
+    match k?, formatByName f, u32? w, u32? h, u32? d, opsS.mapM parseOp with
+    | some k, some f, some w, some h, some d, some ops =>
+      match Header.new k w h d f with
+      | none => "panic"
+      | some h0 =>
+        match h0.applyOps ops with
+        | none => "panic-mip0"
+        | some hd => s!"ok {fmtHeader hd} {roundtripStr hd}"
+    | _, _, _, _, _, _ => "bad-case"
+  | _ => "bad-case"
+
+def runX (t : List String) : String :=
+  match t with
+  | [hs] =>
+    match parseHeaderTok hs with
+    | none => "bad-case"
+    | some h =>
+      let d9 := h.toDx9.map Header.dx9
+      let d10 := h.toDx10.map Header.dx10
+      let f (x : Option Header) := match x with | some y => fmtHeader y | none => "-"
+      let fpx (x : Option Header) := match x with | some y => fmtPxOpt (pixelInfoOf y) | none => "-"
+      let fl (x : Option Header) := match x with | some y => fmtLayout y | none => "-"
+      s!"d9={f d9} d10={f d10} px={fmtPxOpt (pixelInfoOf h)} px9={fpx d9} px10={fpx d10} lay={fmtLayout h} lay9={fl d9} lay10={fl d10}"
+  | _ => "bad-case"
+
+def runTD (t : List String) : String :=
+  match t.mapM nat? with
+  | some [c] =>
+    if c ≥ U32 then "bad-case" else
+    if !dxgiValid c then "invalid" else
+    let to9 (a : AlphaMode) := match toDx9Format c a with | some p => fmtPf p | none => "-"
+    let fmt := match dxgiToSupported c with | some f => Format.name f | none => "-"
+    s!"valid px={fmtPxOpt (dxgiPixelInfo c)} lin={dxgiToLinear c} alpha={if dxgiHasAlpha c then 1 else 0} fmt={fmt} to9={to9 .unknown} to9p={to9 .premultiplied}"
+  | _ => "bad-case"
+
+def runTF (t : List String) : String :=
+  match t.mapM u32? with
+  | some [c] =>
+    let x : Dx9Header := Dx9Header.new .image 1 1 0 (.fourCC c)
+    let fmt := match fourCCToSupported c with | some f => Format.name f | none => "-"
+    let dx := match x.toDx10 with | some y => toString y.dxgiFormat | none => "-"
+    s!"fmt={fmt} px={fmtPxOpt (pixelInfoOf (.dx9 x))} dxgi={dx} alpha={x.alphaMode.toU32}"
+  | _ => "bad-case"
+
+def runTM (t : List String) : String :=
+  match t with
+  | [n] =>
+    match formatByName n with
+    | none => "bad-case"
+    | some f =>
+      let mask := match f.toMask with | some m => fmtPf (.mask m) | none => "-"
+      let px := match f.pixelInfo with | some p => fmtPx p | none => "panic"
+      s!"dxgi={fmtOptNat f.toDxgi} fcc={fmtOptNat f.toFourCC} mask={mask} px={px}"
+  | _ => "bad-case"
+
+def runC09 (line : String) : String :=
+  match toks line with
+  | "P" :: t => runP t
+  | "K" :: t => runK t
+  | "X" :: t => runX t
+  | "TD" :: t => runTD t
+  | "TF" :: t => runTF t
+  | "TM" :: t => runTM t
+  | _ => "bad-case"
+
+end Dds.Drv.C09
+
 namespace Dds.Drv
-
-def runC09 (_line : String) : String := "not-modelled"
-
+def runC09 : String → String := C09.runC09
 end Dds.Drv
